@@ -888,6 +888,55 @@ func zzC19(t *testing.T, res *zzResult, rng *rand.Rand, work, tier string) {
 		}
 		res.Counters["violations_total"]++
 	}
+	// two sources, the second inheriting the first one's ignore list: what each running
+	// sender ignores is its own configuration's business (1-8 ignore patterns, each
+	// source with a non-HTTP tag of its own)
+	for k := 1; k <= 8; k++ {
+		res.Evaluations++
+		var ign []string
+		for j := 0; j < k; j++ {
+			ign = append(ign, fmt.Sprintf(`\.ign%d$`, j))
+		}
+		mkSrc := func(name, disk string, withIgnore bool) map[string]any {
+			m := map[string]any{"name": name, "out-dir": filepath.Join(work, "out-"+name), "log-dir": filepath.Join(work, "log-"+name), "threads": 1,
+				"target": map[string]any{"name": "t", "http-host": "127.0.0.1:1"},
+				"tags":   []map[string]any{{"pattern": "DEFAULT", "method": "http"}, {"pattern": "^" + disk + "/", "method": "disk"}}}
+			if withIgnore {
+				m["ignore"] = ign
+			}
+			return m
+		}
+		b, _ := json.Marshal(map[string]any{"sources": []any{mkSrc("one", "adisk", true), mkSrc("two", "bdisk", false)}})
+		cconf := &sts.ClientConf{}
+		if err := json.Unmarshal(b, cconf); err != nil || len(cconf.Sources) != 2 {
+			res.Inconclusive++
+			continue
+		}
+		var apps []*clientApp
+		okInit := true
+		for _, sc := range cconf.Sources {
+			app := &clientApp{conf: sc, dirCache: filepath.Join(work, "cache-"+sc.Name)}
+			_ = os.MkdirAll(app.dirCache, 0o755)
+			if err := app.init(); err != nil {
+				okInit = false
+				res.InconcNotes = append(res.InconcNotes, "clientApp.init: "+err.Error())
+				break
+			}
+			apps = append(apps, app)
+		}
+		if !okInit {
+			res.Inconclusive++
+			continue
+		}
+		for ai, want := range []map[string]bool{{"adisk/x.dat": true, "bdisk/x.dat": false, "plain.dat": false, "q.ign0": true}, {"adisk/x.dat": false, "bdisk/x.dat": true, "plain.dat": false, "q.ign0": true}} {
+			for name, w := range want {
+				if got := apps[ai].broker.Conf.Store.ShouldIgnore(zzFile{name: name}); got != w {
+					viol(-k, "method-applied", "ignore-list-of-one-source-changed-by-another", fmt.Sprintf("source %d of 2 (second inherits the first one's %d ignore patterns; disk tags ^adisk/ and ^bdisk/): after both senders were set up, %q ignored = %v, its own configuration says %v", ai+1, k, name, got, w), map[string]any{"ignore_patterns": k})
+				}
+			}
+		}
+		res.Counters["two_source_wirings"]++
+	}
 	// (some patterns match the TEXT of other patterns - "dir" matches "^dir/sub/" - as a
 	// catch-all listed after specific rules does; a group can fall back to its tag's text)
 	pats := []string{`^prio/`, `^slow\.`, `\.raw$`, `\.(nc|cdf)$`, `^dir/sub/`, `_b1\.`, `^x`, `dir`, `prio`, `sgp`, `^sgp.*\.raw$`, `^sgp/raw/`}
